@@ -128,8 +128,9 @@ Proof.
   assert (C2 : CreSorted s2) by (unfold CreSorted, s2; destruct (worker (set_pend [] s)); ssimpl; constructor).
   pose proof (exec_actions_cs InConstruct (body p 0) s2 I2 C2) as C3.
   destruct (exec_actions InConstruct s2 (body p 0)) as [s3 failed]. cbn [fst] in *.
+  destruct failed; [exact C3|].
   set (s5 := set_ps PInit _).
-  assert (C5 : CreSorted s5) by (unfold s5, CreSorted; destruct failed; exact C3).
+  assert (C5 : CreSorted s5) by (unfold s5, CreSorted; exact C3).
   destruct (r_warm r <? clock s5); exact C5.
 Qed.
 
